@@ -3,6 +3,7 @@ package harness
 import (
 	"encoding/hex"
 	"fmt"
+	"github.com/teleport-network/teleport/x/aggregate"
 	"math/big"
 	"sort"
 	"strings"
@@ -283,6 +284,41 @@ func driveAggregate(t *testing.T, in, out string, seed int64) {
 			case "UpdateERC20":
 				res, msg := c.ExecProposal(aggtypes.NewUpdateTokenPairERC20Proposal("t", "d", w.contractAddr(str(st["old"])).Hex(), w.contractAddr(str(st["new"])).Hex()))
 				line["res"], line["msg"] = res, clip(msg)
+			case "Reimport":
+				// the module's export, with the contract addresses spelt as an operator might (all forms pass genesis validation),
+				// imported into the emptied module store - what a restart from a genesis file does
+				gs := aggregate.ExportGenesis(c.Ctx(), *c.App.AggregateKeeper)
+				for i := range gs.TokenPairs {
+					switch str(st["form"]) {
+					case "lower":
+						gs.TokenPairs[i].ERC20Address = strings.ToLower(gs.TokenPairs[i].ERC20Address)
+					case "upper":
+						gs.TokenPairs[i].ERC20Address = "0x" + strings.ToUpper(gs.TokenPairs[i].ERC20Address[2:])
+					}
+				}
+				line["res"], line["msg"] = "ok", ""
+				if err := gs.Validate(); err != nil {
+					line["res"], line["msg"] = "err", clip(err.Error())
+				} else {
+					store := c.Ctx().KVStore(c.App.GetKey(aggtypes.StoreKey))
+					var keys [][]byte
+					it := store.Iterator(nil, nil)
+					for ; it.Valid(); it.Next() {
+						keys = append(keys, append([]byte{}, it.Key()...))
+					}
+					it.Close()
+					for _, k := range keys {
+						store.Delete(k)
+					}
+					func() {
+						defer func() {
+							if r := recover(); r != nil {
+								line["res"], line["msg"] = "panic", fmt.Sprint(r)
+							}
+						}()
+						aggregate.InitGenesis(c.Ctx(), *c.App.AggregateKeeper, c.App.AccountKeeper, *gs)
+					}()
+				}
 			case "Param":
 				on := st["on"].(bool)
 				content := paramproposal.NewParameterChangeProposal("t", "d", []paramproposal.ParamChange{
